@@ -338,3 +338,17 @@ V("c13-partial-sign-slip", "C13", "violation", "C13.R4", edits=[(GPO, "         
 V("c13-srp-towards-sun", "C13", "violation", "C13.R4", edits=[(SPF, "            -const.SOLAR_PRESSURE\n", "            const.SOLAR_PRESSURE\n")])
 V("c13-third-body-indirect-term", "C13", "violation", "C13.R4", edits=[(SPF, "    return r_sat_3 * q_3 - (r_e_sat / (r_e_3_norm**3))", "    return r_sat_3 * q_3 - (r_e_sat / (r_e_3_norm**2))")])
 V("c13-n-terms-reordered", "C13", "pass", edits=[(SPF, "a_perturbations = a_nonspherical + a_third_body + a_srp + a_gr", "a_perturbations = a_gr + a_srp + a_third_body + a_nonspherical")])
+
+# ------------------------------------------------------------------------------------ C03
+TBF = "dynamics/two_body.py"
+KPF = "physics/orbits/kepler.py"
+V("c03-sp-velocity-slice-start", "C03", "violation", "C03.R1", edits=[(SPF, "            v_eci = state[jj + half :: step]", "            v_eci = state[jj + half + 1 :: step]")])
+V("c03-twobody-acc-into-other-state", "C03", "violation", "C03.R1", edits=[(TBF, "            derivative[jj + half :: step] = -1.0 * Earth.mu / (r_norm**3.0) * r_vector", "            derivative[(jj + 1) % step + half :: step] = -1.0 * Earth.mu / (r_norm**3.0) * r_vector")])
+V("c03-twobody-step-from-half", "C03", "violation", "C03.R1", edits=[(TBF, "        step = int(state.shape[0] / 6)", "        step = int(state.shape[0] / 3)")])
+V("c03-restart-not-reshaped", "C03", "violation", None, edits=[(CLF, "            initial_state = solution.y[::, -1].reshape(state_shape)", "            initial_state = solution.y[::, -1].reshape(state_shape[::-1]).T")])
+V("c03-time-direct-for-body-position", "C03", "violation", "C03.R2", edits=[(SPF, "        positions = {body: body.getPosition(julian_date) for body in self.third_bodies}", "        positions = {body: body.getPosition(JulianDate(self.init_julian_date + time / 3600)) for body in self.third_bodies}")])
+V("c03-epoch-hours", "C03", "violation", "C03.R2", edits=[(SPF, "self.init_julian_date + time / 86400", "self.init_julian_date + time / 3600 / 24 / 2")])
+V("c03-twobody-cubed-dropped", "C03", "violation", "C03.R3", edits=[(TBF, "-1.0 * Earth.mu / (r_norm**3.0) * r_vector", "-1.0 * Earth.mu / (r_norm**2.0) * r_vector")])
+V("c03-kepler-gdot", "C03", "violation", "C03.R3", edits=[(KPF, "    gdot = 1 - chi**2 / r * c2", "    gdot = 1 - chi**2 / norm(r0) * c2")])
+V("c03-kepler-check-removed", "C03", "violation", "C03.R3", edits=[(KPF, "    if not isclose(f * gdot - fdot * g, 1.0, rtol=0.0, atol=min(tol, 1e-6)):", "    if False and not isclose(f * gdot - fdot * g, 1.0, rtol=0.0, atol=min(tol, 1e-6)):")])
+V("c03-n-rename-loop-var", "C03", "pass", edits=[(TBF, "        for jj in range(step):\n            # Parse position vector\n            r_vector = state[jj : jj + half : step]", "        for kk in range(step):\n            jj = kk\n            # Parse position vector\n            r_vector = state[jj : jj + half : step]")])
